@@ -325,7 +325,17 @@ def r5(F, R):
                     R.bad("C05-R5", key, site, "a non-finite array does not make %s return false" % b.fn_name)
                 break
             if not found:
-                R.bad("C05-R5", key, site, "result of the finiteness test is not branched on")
+                # `a && check(x)`: the result of the last test *is* the return value (a false result returns false)
+                dl = t["dest"]["l"] if not t["dest"]["p"] else None
+                later = [st for r_ in (b.reach_from(t["target"]) if t.get("target") is not None else ())
+                         for st in b.blocks[r_]["stmts"] if st["k"] == "assign" and st["pl"]["l"] == 0 and not st["pl"]["p"]]
+                if dl == 0 and not later:
+                    R.ok("C05-R5", key, site, "the test result is returned as is")
+                elif dl is not None and len(later) == 1 and later[0]["rv"]["k"] == "use" and later[0]["rv"]["op"]["k"] in ("copy", "move") and \
+                        later[0]["rv"]["op"]["pl"]["l"] == dl and not later[0]["rv"]["op"]["pl"]["p"] and len(b.defs().get(dl, [])) == 1:
+                    R.ok("C05-R5", key, site, "the test result is returned as is")
+                else:
+                    R.bad("C05-R5", key, site, "result of the finiteness test is not branched on")
     R.floor("C05-R5", 4)
 
 
